@@ -711,7 +711,7 @@ func vfH_dial_logic() {
 		}
 		ext := h["Sec-WebSocket-Extensions"]
 		if in.d.EnableCompression {
-			vfAssert(len(ext) == 1 && ext[0] == "permessage-deflate; server_no_context_takeover; client_no_context_takeover", "c15-offer-iff-enabled")
+			vfAssert(len(ext) == 1 && specPMDBoth(ext[0]), "c15-offer-iff-enabled")
 		} else {
 			vfAssert(len(ext) == 0, "c15-offer-iff-enabled")
 		}
